@@ -23,6 +23,40 @@ theorem floatLits_ok : Facts.floatLits = [
   "internal/phase5.flatNonConsecutive: 20.0"
 ] := by decide
 
+/-- every other constant that is used as a floating-point number in phases 4, 5 and the top level (integer literals and named
+    constants in float context): halving, the fixed offsets of the flat-edge and spline code — no sentinel, no tolerance -/
+theorem floatConsts_ok : Facts.floatConsts = [
+  "internal/phase4.brandesKoepfPositioner.horizontalCompaction: 0",
+  "internal/phase4.brandesKoepfPositioner.placeBlock: 0",
+  "internal/phase4.execBrandesKoepf: 0",
+  "internal/phase4.execNetworkSimplex: 2",
+  "internal/phase4.execVerticalAlign: 2",
+  "internal/phase4.networkSimplexProcessor.distCenterPoints: 2",
+  "internal/phase4.networkSimplexProcessor.distCenterPoints: 2",
+  "internal/phase4.placeBlock: 2",
+  "internal/phase5.endPoint: 2",
+  "internal/phase5.execOrthoRouting: 2",
+  "internal/phase5.execSplines: 2",
+  "internal/phase5.execSplines: 2",
+  "internal/phase5.flatNonConsecutive: 10",
+  "internal/phase5.flatNonConsecutive: 2",
+  "internal/phase5.flatNonConsecutive: 2",
+  "internal/phase5.flatNonConsecutive: 2",
+  "internal/phase5.flatNonConsecutive: 2",
+  "internal/phase5.flatNonConsecutive: 5",
+  "internal/phase5.flatStraight: 2",
+  "internal/phase5.flatStraight: 2",
+  "internal/phase5.isVerticallyAligned: 2",
+  "internal/phase5.isVerticallyAligned: 2",
+  "internal/phase5.nonTerminalPoint: 2",
+  "internal/phase5.nonTerminalPoint: 2",
+  "internal/phase5.rectBetweenNodes: 3",
+  "internal/phase5.rectBetweenNodes: 3",
+  "internal/phase5.rectVirtualNode: 10",
+  "internal/phase5.rectVirtualNode: 10",
+  "internal/phase5.startPoint: 2"
+] := by decide
+
 theorem numConversions_ok : Facts.numConversions = [
   "internal/phase2.execNetworkSimplex: float64(len(g.Nodes))",
   "internal/phase2.execNetworkSimplex: int(math.Sqrt(float64(len(g.Nodes))))",
